@@ -64,6 +64,8 @@ def snapshot(chart, inp):
 
 def execute(prog, cfg):
     """returns (lines, execution)"""
+    if cfg.get('collab'):
+        prog = dict(prog, collab=cfg['collab'])
     ex = driver.Execution(prog, overlap=cfg.get('overlap', False), cancel=cfg.get('cancel'),
                           snap=snapshot if cfg.get('snap') else None, max_actions=cfg.get('max_actions', 4000))
     lines = ex.run(make_policy(cfg['policy']))
@@ -99,7 +101,8 @@ def work(chunk):
                     n = 0
                     for ex in driver.enumerate_eager(
                             prog, limit=cfg['policy'][1],
-                            make_exec=lambda: driver.Execution(prog, overlap=cfg.get('overlap', False),
+                            make_exec=lambda: driver.Execution(dict(prog, collab=cfg['collab']) if cfg.get('collab') else prog,
+                                                               overlap=cfg.get('overlap', False),
                                                                snap=snapshot if cfg.get('snap') else None,
                                                                max_actions=cfg.get('max_actions', 4000))):
                         tid = '%s|%d.%d' % (name, ci, n)
@@ -148,6 +151,10 @@ def base_cfgs(seed, nrand, eager_limit, **extra):
         cfgs.append(dict(policy=['eager_enum', eager_limit], **extra))
     for i in range(nrand):
         cfgs.append(dict(policy=['random', seed * 100003 + i, [0.5, 0.7, 0.9, 0.97][i % 4]], **extra))
+    # collaborators (event manager, artifact store) that really suspend: their completions are scheduled too
+    modes = [{'ev': {'mode': 'yield'}}, {'save': {'mode': 'yield'}}, {'ev': {'mode': 'yield'}, 'save': {'mode': 'yield'}}]
+    for i in range(max(1, nrand // 2)):
+        cfgs.append(dict(policy=['random', seed * 100003 + 500 + i, [0.5, 0.8, 0.95][i % 3]], collab=modes[i % 3], **extra))
     return cfgs
 
 
@@ -244,7 +251,7 @@ def match_known(known, pid, prog, clause):
     for k in known:
         if k.get('status') != 'finding' or k['property'] != pid or k['clause'] != clause:
             continue
-        if prog in k.get('programs', ()) or shape in k.get('shapes', ()):
+        if k.get('programs_any') or prog in k.get('programs', ()) or shape in k.get('shapes', ()):
             return k
     return None
 
